@@ -15,7 +15,7 @@
 from contracts.common import fn_named
 from contracts.common import (same_stream, Item, mk_resource, mk_package2, resource_desc, run_spec, ghost_row, expect_no_raise_or_same,
                               row_transducer, _b, selector, tree_writes_under)
-from contracts import C10 as K10
+from contracts import C10 as K10, base as BA
 from contracts.streams import calls, effect_names
 
 P = 'dataflows/processors/'
@@ -348,8 +348,52 @@ def sym_appenders(vc):
         names = [e.kind for e in evs if e.kind in ('YieldFrom', 'Yield')]
         check(it, 'upstream-streams-first-then-the-new-one', names == ['YieldFrom', 'Yield'] and base_ok(evs, resources))
         ys = yields_of(evs)
-        check(it, 'new-stream-is-the-keyed-row-iterator', len(ys) == 1 and ys[0].obj is newstream)
+        y = ys[0].obj if len(ys) == 1 else None
+        if isinstance(y, GenObj):
+            # a generator of the step around the keyed row iterator: it hands on exactly that iterator's rows
+            n0 = len(it.path.events)
+            it.run_generator(y)
+            inner = [e for e in it.path.events[n0:] if e.kind in ('YieldFrom', 'Yield')]
+            check(it, 'new-stream-is-the-keyed-row-iterator', len(inner) == 1 and inner[0].kind == 'YieldFrom' and inner[0].src is newstream)
+        else:
+            check(it, 'new-stream-is-the-keyed-row-iterator', y is newstream)
     vc.explore(fk, thunk)
+
+    # C04: what the source raised while its rows are streamed reaches the caller as it was raised (the row stream runs through
+    # tabulator, which replaces any exception by SourceError(str(error)); the loader has recorded the original)
+    from pyvc.symex import PyExc
+    from pyvc import lib
+
+    def thunk_err(it):
+        IL = real_function(it, 'dataflows.helpers.iterable_loader', 'iterable_loader')
+        il = it.call(IL, [PyList([])])
+        original = lib.symbolic_exception(it, 'raised_by_the_source')
+        recorded = it.decide(2, lambda i: True) == 1
+        # the library iterator may fail (with ITS exception: tabulator's SourceError); when the failure came from the source,
+        # the loader's handle_iterable has recorded the original before
+        if recorded:
+            il.attrs['exc'] = original
+        keyed = Stream('keyed_rows', lambda it_: it_.fresh_row('row'), may_raise=True)
+        res = Opaque('Resource', 'self.res')
+        res.attrs['call:iter'] = lambda it_, o, a, k: keyed
+        il.attrs['res'] = res
+        resources = Stream('resources', lambda it_: mk_resource(it_, 'r'))
+        gen = it.call(it.lib.getattr_(it, il, 'process_resources'), [resources])
+        it.run_generator(gen)
+        ys = yields_of(it.path.events)
+        y = ys[0].obj if len(ys) == 1 else None
+        try:
+            if isinstance(y, GenObj):
+                it.run_generator(y)
+            else:
+                it.lib.yield_from(it, y)
+        except PyExc as pe:
+            up = [e for e in it.path.events if e.kind == 'PullRaises']
+            check(it, 'source-error-during-the-row-stream-reaches-the-caller-as-raised[recorded=%s]' % recorded,
+                  len(up) == 1 and pe.exc is (original if recorded else up[0].exc))
+            cover(it, 'row-stream-failure-reachable[recorded=%s]' % recorded)
+            return
+    vc.explore(fk, thunk_err, min_paths=2, explore_abandon=True)
     fk2 = vc.under_contract(P + 'sources.py', ['sources', 'process_resources'])
 
     def thunk2(it):
@@ -376,10 +420,15 @@ def sym_appenders(vc):
         check(it, 'every-source-drained-in-order', all(d.attrs['res_iter'].drained for d in ds_list))
     vc.explore(fk2, thunk2, min_paths=2)
     fk3 = vc.under_contract(P + 'load.py', ['load', 'process_resources'])
-    for strip, limit in ((True, None), (False, 5), (True, 3)):
-        def thunk3(it, strip=strip, limit=limit):
+    for strip, limit, kind in ((True, None, 'file'), (False, 5, 'file'), (True, 3, 'file'), (True, 0, 'file'), (False, 0, 'file'),
+                               (True, None, 'datapackage'), (True, 2, 'datapackage'), (True, None, 'pair'), (False, 0, 'pair')):
+        def thunk3(it, strip=strip, limit=limit, kind=kind):
             L = real_function(it, 'dataflows.processors.load', 'load')
-            ld = it.call(L, ['x.csv'], dict(strip=strip, limit_rows=limit))
+            src_arg = (Opaque('descriptor', 'given_descriptor'), Opaque('iterators', 'given_iterators')) if kind == 'pair' else \
+                ('pkg/datapackage.json' if kind == 'datapackage' else 'x.csv')
+            ld = it.call(L, [src_arg], dict(strip=strip, limit_rows=limit))
+            if kind == 'datapackage':
+                ld.attrs['load_dp'] = Opaque('Package', 'loaded_package')     # what safe_process_datapackage leaves for such a source
             d1, d2 = Opaque('descriptor', 'd1'), Opaque('descriptor', 'd2')
             i1, i2 = Opaque('rowiter', 'i1'), Opaque('rowiter', 'i2')
             ld.attrs['resource_descriptors'] = PyList([d1, d2])
@@ -398,8 +447,10 @@ def sym_appenders(vc):
                 while isinstance(g, GenObj):
                     chain.append(g.fn.name)
                     g = g.args[-1]
-                want = (['limiter'] if limit else []) + (['stripper'] if strip else [])
-                check(it, 'wrapper-order-limit(strip(cast(iterator)))[%s,%s]' % (strip, limit), chain == want and g is src)
+                # a limit is honoured whenever one is given (0 included); white space is stripped from values parsed from a file,
+                # never from the values of a data package (datapackage.json or a (descriptor, iterators) pair)
+                want = (['limiter'] if limit is not None else []) + (['stripper'] if strip and kind == 'file' else [])
+                check(it, 'wrapper-order-limit(strip(cast(iterator)))[%s,%s,%s]' % (strip, limit, kind), chain == want and g is src)
         vc.explore(fk3, thunk3)
 
 
@@ -540,6 +591,37 @@ def nat_concatenate_projection(h):
                 ('projection without renames', nsrc), want, (seen, fields) if got[0] == 'ok' else got[:2])
 
 
+def nat_load_reuse(h):
+    """a flow with a load step run twice (process() then results(); the documented way to get both stats and rows), and one load
+    object used in two flows: every run appends the loaded resources once, after the existing ones, with all their rows"""
+    import os, tempfile, shutil
+    from dataflows import Flow, load, dump_to_path
+    d = tempfile.mkdtemp(prefix='c16l_')
+    try:
+        a = [{'a': i} for i in range(3)]
+        b = [{'b': 'x%d' % i} for i in range(5)]
+        Flow([dict(r) for r in a], [dict(r) for r in b], dump_to_path(d)).process()
+        for what, mk, want_names, want_rows in (
+                ('datapackage', lambda: load(os.path.join(d, 'datapackage.json')), ['first', 'res_1', 'res_2'], [1, 3, 5]),
+                ('csv file', lambda: load(os.path.join(d, 'res_2.csv'), name='loaded'), ['first', 'loaded'], [1, 5])):
+            from dataflows import update_resource
+            step = mk()
+            f = Flow([{'c': 1}], update_resource(-1, name='first'), step)
+            for run in (1, 2, 3):
+                got = h.run(lambda: f.results())
+                ok = got[0] == 'ok' and [r['name'] for r in got[1][1].descriptor['resources']] == want_names and \
+                    [len(r) for r in got[1][0]] == want_rows
+                h.check(ok, 'dataflows/processors/load.py::load.safe_process_datapackage', (what, 'run %d of the same flow' % run),
+                        (want_names, want_rows), ([r['name'] for r in got[1][1].descriptor['resources']], [len(r) for r in got[1][0]])
+                        if got[0] == 'ok' else got[:2])
+            got = h.run(lambda: Flow([{'c': 1}], update_resource(-1, name='first'), step).results())
+            ok = got[0] == 'ok' and [r['name'] for r in got[1][1].descriptor['resources']] == want_names and [len(r) for r in got[1][0]] == want_rows
+            h.check(ok, 'dataflows/processors/load.py::load.safe_process_datapackage', (what, 'the same load object in another flow'),
+                    (want_names, want_rows), got[:2] if got[0] != 'ok' else [len(r) for r in got[1][0]])
+    finally:
+        shutil.rmtree(d, ignore_errors=True)
+
+
 def nat_duplicate_aliasing(h):
     """duplicate followed by an in-place row edit: the copy must still equal the original input rows (known finding)"""
     from dataflows import Flow, duplicate
@@ -558,7 +640,8 @@ ITEMS = [
     Item('concatenate.concatenator', sym_concatenator, [], P + 'concatenate.py::concatenator'),
     Item('concatenate.func', sym_concatenate_func, [], P + 'concatenate.py::concatenate.func'),
     Item('duplicate.func', sym_duplicate_func, [], P + 'duplicate.py::duplicate.func'),
+    Item('iterable_loader.naming', BA.sym_iterable_loader_naming, [], 'dataflows/helpers/iterable_loader.py::iterable_loader.process_datapackage'),
     Item('delete_resource.func', K10.sym_delete_resource, [], P + 'delete_resource.py::delete_resource.func'),
     Item('appenders', sym_appenders, [], 'dataflows/helpers/iterable_loader.py::iterable_loader.process_resources'),
-    Item('pipelines', None, [('conservation', nat_restructure), ('concatenate-in-place', nat_concatenate_in_place), ('concatenate-projection', nat_concatenate_projection), ('duplicate-aliasing', nat_duplicate_aliasing)], None),
+    Item('pipelines', None, [('conservation', nat_restructure), ('concatenate-in-place', nat_concatenate_in_place), ('concatenate-projection', nat_concatenate_projection), ('load-reuse', nat_load_reuse), ('duplicate-aliasing', nat_duplicate_aliasing)], None),
 ]
